@@ -41,7 +41,8 @@ def run(tier: str, rep: Report):
             rep.cov.setdefault("model_invariant_violations", {})[f"{v}/{mode}"] = len(r.violated)
             vals = [json.loads(tla_unescape(s)) for s in tlc_prints(r.out)]
             if mode == "words":
-                words[v] = vals
+                # negative words (marker 99 = sign, see wk/flags.py): never representable, must raise
+                words[v] = vals + [[99], [99, 6], [99, 0, 1, 6], [99, 2, 3, 5], [99] + list(range(0, 10))]
             else:
                 headers[v] = vals
             if not vals:
